@@ -1,6 +1,6 @@
 \* C01 leg A quick: 2 replicas, all subsets of a 6-point grid (4 096 layouts + 64 identical-replica
 \* layouts), InitPen 5 (x1000 ms); per layout one reader from the start and one seek-first reader
-\* per target (7 targets)
+\* per target (5 targets)
 SPECIFICATION Spec
 CONSTANTS InitPen = 5
           Grid = {0, 1, 4, 6, 11, 17}
@@ -9,7 +9,7 @@ CONSTANTS InitPen = 5
           Ctr = FALSE
           Starts = {0}
           Incs = {0}
-          Targets = {0, 1, 3, 6, 11, 12, 18}
+          Targets = {0, 3, 6, 12, 18}
           EmitMod = 1
 INVARIANTS C01_StrictlyIncreasing C01_FromSomeReplica C01_UnchangedIfIdentical C01_SeekIsSuffix
            StepwiseEqualsFunctional BoundedOutput OnlyDoneIsFinal
